@@ -489,6 +489,8 @@ def main_check(pid, tier, seed, replay=None):
         if not g.get('ok', False):
             broken.append(('gen', g.get('error', 'translator failed')))
         ctx.note('gen: %s' % ('ok' if g.get('ok') else 'FAILED ' + str(g.get('error'))[:300]))
+    if os.environ.get('VERIF_GEN_ONLY'):
+        return 0
 
     # 2. prove
     pr = prove(ctx, plug.PROPS, extra_targets=['drv_' + d.lower() for d in getattr(plug, 'DRIVERS', [])],
